@@ -495,6 +495,9 @@ func writeEvidence(prop, tier string, seed int64, results []*HarnessResult, samp
 		"violations":  violations,
 	}
 	dir := filepath.Join(verifRoot, "evidence")
+	if v := os.Getenv("VERIF_EVIDENCE_DIR"); v != "" {
+		dir = v // runs against seeded changes must not overwrite the committed evidence
+	}
 	os.MkdirAll(dir, 0o755)
 	b, _ := json.MarshalIndent(ev, "", " ")
 	os.WriteFile(filepath.Join(dir, prop+".json"), b, 0o644)
